@@ -222,6 +222,10 @@ pub(super) fn complex_borrow_check(
                     // some of those nodes.
                     if unblocked_any_node {
                         strategy_on_block = StrategyOnBlock::Park;
+                        // Going back to parking must be paid for by a *new* clone every time,
+                        // otherwise we'd bounce between `Park` and `Clone` forever, never
+                        // reaching `Error`, when a later stalemate can't be resolved by cloning.
+                        unblocked_any_node = false;
                     } else {
                         strategy_on_block = StrategyOnBlock::Error;
                     }
